@@ -194,7 +194,61 @@ def oracle_kernel_basis(rng):
     return None
 
 
+def oracle_domain_updated_in_place(rng):
+    """the constraint exposes the set it is stated over as con.X; SigDomain.parse_coniclifts_constraints is a documented in-place update.  A
+    certificate exposed after a solve must hold on con.X as it is when the Problem is compiled (a box widened after the constraint was created,
+    or con.X replaced by another domain of the same shape)"""
+    import sageopt.coniclifts as cl
+    from sageopt import SigDomain
+    with warnings.catch_warnings():
+        warnings.simplefilter('ignore')
+        for how in ('reparse', 'replace'):
+            lo1, hi1 = 0.0, 1.0
+            hi2 = float(rng.choice([2.0, 2.5, 3.0]))
+            lo2 = float(rng.choice([0.0, -0.5]))
+            x = cl.Variable(shape=(1,), name='dup_x_' + how)
+            gam = cl.Variable(shape=(1,), name='dup_g_' + how)
+            alpha = np.array([[1.0], [2.0], [0.0]])
+            cexpr = cl.Expression([-1.0, 0.1, -gam[0]])      # -exp(x) + 0.1 exp(2x) - gamma
+            X = SigDomain(1)
+            X.parse_coniclifts_constraints([x >= lo1, x <= hi1])
+            con = cl.PrimalSageCone(cexpr, alpha, X, 'dup_' + how)
+            if how == 'reparse':
+                X.parse_coniclifts_constraints([x >= lo2, x <= hi2])
+            else:
+                X2 = SigDomain(1)
+                X2.parse_coniclifts_constraints([x >= lo2, x <= hi2])
+                con.X = X2
+            try:
+                st, val = cl.Problem(cl.MAX, gam[0], [con]).solve(verbose=False)
+            except Exception:
+                continue                  # refusing the updated domain is not a wrong certificate
+            if st != 'solved' or not math.isfinite(val):
+                continue
+            Xc = con.X
+            ts = np.linspace(lo2 - 0.5, hi2 + 0.5, 701)
+            inside = [t for t in ts if np.all(Xc.A @ np.array([t]) + Xc.b >= -1e-12)] if Xc.A.shape[1] == 1 else []
+            if not inside or abs(min(inside) - lo2) > 0.01 or abs(max(inside) - hi2) > 0.01:
+                continue
+            c = np.asarray(con.c.value, dtype=float)
+            vecs = [('constrained coefficients', c)] + [('AGE vector %d' % i, np.asarray(av.value, dtype=float)) for i, av in con.age_vectors.items()]
+            for t in inside:
+                ex = np.exp(alpha[:, 0] * t)
+                for nm, a in vecs:
+                    fv = float(a @ ex)
+                    if fv < -1e-5 * (1 + float(np.abs(a) @ ex)):
+                        return ('a primal SAGE constraint created over [%g, %g] whose domain was then %s to [%g, %g] (this is con.X at compile time) '
+                                'reports gamma = %g; the signomial with the %s %s is %g at x = %g in con.X'
+                                % (lo1, hi1, 'widened in place' if how == 'reparse' else 'replaced', lo2, hi2, val, nm, a.tolist(), fv, t))
+    return None
+
+
 def run(ctx):
+    why = oracle_domain_updated_in_place(ctx.rng)
+    ctx.evaluations += 1
+    ctx.suites['domain_updated_in_place'] = {'cases': 2, 'failure': why}
+    if why:
+        ctx.problem('oracle', 'property fails on the implementation: ' + why, inputs={'suite': 'domain_updated_in_place'}, failing_input_found=True)
     for _ in range(ctx.n(12, 80)):
         why = oracle_kernel_basis(ctx.rng)
         ctx.evaluations += 1
